@@ -287,9 +287,12 @@ fn source_case(slot: &mut usize, fmt: &str, name: &str, data: &[u8], out: &mut S
             // "yields a definition that initializes" is claimed for well-formed sources: no empty token and
             // no two ordinary tokens with the same bytes or the same id (Tiktoken / Tekken sources are not
             // de-duplicated by their converters; the combined loader then reports the initialization error)
+            // (duplicates that only arise by undoing <0xNN> or placeholder spellings are legitimate in
+            // SentencePiece and Tokenizers sources: their converters drop them, and the result must initialize)
             let mut seen_b = std::collections::HashSet::new();
             let mut seen_i = std::collections::HashSet::new();
-            let malformed = src.iter().filter(|s| !s.unused).any(|s| s.bytes.is_empty() || !seen_i.insert(s.id) || (s.kind.is_none() && !seen_b.insert(s.bytes.clone())));
+            let dedups = fmt == "sentencepiece" || fmt == "tokenizers";
+            let malformed = src.iter().filter(|s| !s.unused).any(|s| s.bytes.is_empty() || !seen_i.insert(s.id) || (!dedups && s.kind.is_none() && !seen_b.insert(s.bytes.clone())));
             if malformed {
                 out.count("malformed_sources");
             }
